@@ -8,8 +8,18 @@
     _split_label_string            [split_label]            (slices never raise; short input gives short slices)
     _assign_compound_labels        [assign_labels]          (suffix "" keeps the bare name)
     _repack_stoichiometries        [repack]                 (defaultdict(int), substrates first)
-    replacements dict + arg rename [replacements] / [rename_args]   (LATER KEY WINS: 2A -> B maps both
-                                                            occurrences of A to the last isotopomer)
+    renaming of the rate arguments -- the FORM of that block is a regenerated fact ([repl_kind]):
+      ReplDict        replacements = dict(zip(subs, new_subs)) | dict(zip(prods, new_prods));
+                      args = [replacements.get(k, k) for k in args]
+                      [replacements] / [rename_args]: LATER KEY WINS (2A -> B maps both occurrences of A to the
+                      last isotopomer -- finding c05-homodimer); a labelled species that is neither substrate nor
+                      product keeps its BASE name, which does not exist in the labelled model (finding
+                      c05-labelled-modifier)
+      ReplPositional  (fixes/C05-homodimer.diff) pools[base].append(new) over zip(subs + prods, new_subs + new_prods);
+                      for k in args: if pool := pools.get(k): last[k] = pool.pop(0);
+                      new_args.append(last.get(k, f"{k}__total" if k in label_variables else k))
+                      [rename_pos]: the j-th occurrence of a compound reads its j-th isotopomer, an exhausted pool
+                      repeats the last one, labelled bystanders are read through their total
     _create_isotopomer_reactions   [create_iso_rxns]
     LabelMapper.build_model        [build_iso]
 
@@ -67,8 +77,38 @@ Definition replacements (bs : list N) (ns : list lname) (bp : list N) (np : list
 Definition rename_args (repl : list (N * lname)) (args : list N) : list lname :=
   map (fun k => match getN k repl with Some v => v | None => LPlain k end) args.
 
+(** ---- per-occurrence renaming (the repaired form of the block) ---- *)
+Inductive repl_kind := ReplDict | ReplPositional | ReplUnknown.
+
+(** pools[k].pop(0) over the flat list of (base compound, new name) pairs: first pair with key k, removed *)
+Fixpoint take_first (k : N) (pairs : list (N * lname)) : option (lname * list (N * lname)) :=
+  match pairs with
+  | [] => None
+  | (k', v) :: rest =>
+    if N.eq_dec k k' then Some (v, rest)
+    else match take_first k rest with
+         | Some (v', rest') => Some (v', (k', v) :: rest')
+         | None => None
+         end
+  end.
+
+(** f"{k}__total" if k in label_variables else k *)
+Definition bystander_name (lv : list (N * nat)) (k : N) : lname :=
+  match getN k lv with Some _ => LTotal k | None => LPlain k end.
+
+Fixpoint rename_pos (lv : list (N * nat)) (pairs last : list (N * lname)) (args : list N) : list lname :=
+  match args with
+  | [] => []
+  | k :: rest =>
+    match take_first k pairs with
+    | Some (v, pairs') => v :: rename_pos lv pairs' (dict_set N.eq_dec k v last) rest
+    | None => (match getN k last with Some v => v | None => bystander_name lv k end) :: rename_pos lv pairs last rest
+    end
+  end.
+
 Section IsoRxn.
   Variable ext_bit : bool.
+  Variable rk : repl_kind.
   Variable lv : label_vars.
 
   (** the body of the `for rate_suffix in ...` loop for one substrate pattern [p];
@@ -79,7 +119,10 @@ Section IsoRxn.
     let ns := assign_labels bs (split_label suffix (labels_per lv bs)) in
     let np := assign_labels bp (split_label psuffix (labels_per lv bp)) in
     mkLR (LIso (r_name r) suffix) (r_fn r)
-         (rename_args (replacements bs ns bp np) (r_args r))
+         (match rk with
+          | ReplPositional => rename_pos lv (combine bs ns ++ combine bp np) [] (r_args r)
+          | _ => rename_args (replacements bs ns bp np) (r_args r)
+          end)
          (map (fun kz => (fst kz, CZ (snd kz))) (repack ns np)).
 
   Definition suffix_of (r : brxn) (p : list bool) : list bool :=
@@ -138,7 +181,7 @@ Definition build_vars (ik : init_name_kind) (lv : label_vars) (init : init_label
 Definition total_name (lv : label_vars) (a : N) : lname :=
   match getN a (isotopomers lv) with Some _ => LTotal a | None => LPlain a end.
 
-Definition build_iso (ext_bit : bool) (ik : init_name_kind) (lv : label_vars) (lmaps : label_maps) (init : init_labels) (bm : bmodel)
+Definition build_iso (ext_bit : bool) (rk : repl_kind) (ik : init_name_kind) (lv : label_vars) (lmaps : label_maps) (init : init_labels) (bm : bmodel)
   : result (lmodel Z) :=
   let params := map (fun kv => (LPlain (fst kv), snd kv)) (b_params bm) in
   let dpars := map (fun d => mkLD (LPlain (d_name d)) (d_fn d) (map LPlain (d_args d))) (b_dpars bm) in
@@ -149,6 +192,6 @@ Definition build_iso (ext_bit : bool) (ik : init_name_kind) (lv : label_vars) (l
           match getN (r_name r) lmaps with
           | None => Ok [mkLR (LPlain (r_name r)) (r_fn r) (map (total_name lv) (r_args r))
                              (map (fun kz => (LPlain (fst kz), CZ (snd kz))) (r_stoich r))]
-          | Some lmap => create_iso_rxns ext_bit lv r lmap
+          | Some lmap => create_iso_rxns ext_bit rk lv r lmap
           end) (b_rxns bm)))
        (fun rxns => Ok (mkLM params vars (dpars ++ totals ++ dvars) (concat rxns))).
